@@ -115,11 +115,11 @@ def scan_trusted(rs):
     return out
 
 
-def verify_unit(repo, tmpl, outdir, do_vacuity=True):
+def verify_unit(repo, tmpl, outdir, do_vacuity=True, drop_hints=()):
     unit = os.path.basename(tmpl).split('.')[0]
     res = UnitResult(unit)
     try:
-        rs, mp = gen.generate(repo, tmpl, outdir)
+        rs, mp = gen.generate(repo, tmpl, outdir, drop_hints=drop_hints)
     except gen.GenError as e:
         res.gen_error = str(e)
         return res
@@ -147,6 +147,22 @@ def verify_unit(repo, tmpl, outdir, do_vacuity=True):
     res.errors = vr.get('errors', 0)
     hard = [d for d in r['diags'] if d.get('level') == 'error' and not d.get('message', '').startswith('aborting due to')]
     if vr.get('encountered-vir-error') or (vr.get('encountered-error') and res.verified == 0 and res.errors == 0):
+        # front-end rejection.  If every error sits in a PROOF HINT (a before/after/atend/loopend annotation) the hints of
+        # those functions are dropped and the unit is tried once more: hints are proof help, not code.
+        bad_fns = set()
+        only_hints = bool(hard)
+        for d in hard:
+            sp = [x for x in d.get('spans', []) if x.get('is_primary')] or d.get('spans', [])
+            if not sp:
+                only_hints = False
+                break
+            li = _line_info(mp, sp[0]['line_start'])
+            if li.get('o') == 'i' and li.get('sec') in ('before', 'after', 'atend', 'loopend') and li.get('fn'):
+                bad_fns.add(li['fn'])
+            else:
+                only_hints = False
+        if only_hints and bad_fns and not drop_hints:
+            return verify_unit(repo, tmpl, outdir, do_vacuity=do_vacuity, drop_hints=tuple(sorted(bad_fns)))
         msgs = '; '.join('%s @%s' % (d['message'][:300], (d['spans'][0]['line_start'] if d['spans'] else '?')) for d in hard[:5])
         res.infra_error = 'verus front end rejected the generated unit (not a verification failure): ' + msgs
         return res
@@ -209,16 +225,16 @@ def verify_unit(repo, tmpl, outdir, do_vacuity=True):
         if f['status'] == 'unknown':
             f['status'] = 'failed' if f['failed'] else 'verified'
     if do_vacuity:
-        res.vacuity = vacuity_unit(repo, tmpl, outdir)
+        res.vacuity = vacuity_unit(repo, tmpl, outdir, drop_hints)
     return res
 
 
-def vacuity_unit(repo, tmpl, outdir):
+def vacuity_unit(repo, tmpl, outdir, drop_hints=()):
     """every extracted function body and loop body gets `proof { assert(false); }` at its start: each of them
     must FAIL (the context -- preconditions / invariants / type invariants -- is satisfiable)."""
     out = {'probes': 0, 'failed_as_expected': 0, 'vacuous': [], 'error': None}
     try:
-        rs, mp = gen.generate(repo, tmpl, outdir, probe='vacuity')
+        rs, mp = gen.generate(repo, tmpl, outdir, probe='vacuity', drop_hints=drop_hints)
     except Exception as e:
         out['error'] = 'gen: %s' % e
         return out
